@@ -61,13 +61,16 @@ class VirtualFile(object):
             try:
                 disk_file = DiskFile(buffer=self.source_file.get_buffer())
                 return disk_file.list_files(), VirtualFileType.DISK
-            except VirtualFileValidationError:
+            except (VirtualFileValidationError, IndexError, UnicodeDecodeError):
                 pass
 
         try:
             cassette_file = CassetteFile(buffer=self.source_file.get_buffer())
-            return cassette_file.list_files(), VirtualFileType.CASSETTE
-        except VirtualFileValidationError as error:
+            coco_files = cassette_file.list_files()
+            # Bytes that hold no cassette file at all are not a cassette image (an empty file may become one)
+            if coco_files or not self.source_file.get_buffer():
+                return coco_files, VirtualFileType.CASSETTE
+        except (VirtualFileValidationError, IndexError, UnicodeDecodeError):
             pass
 
         return [], VirtualFileType.BINARY
